@@ -12,6 +12,8 @@ import orbits
 
 ID = "C08"
 LEAN_TARGETS = ["PV.Props.C08"]
+# T-D: functions translated from the source by harness/pytrans.py, proved equal to the model (DESIGN section 0)
+EQUIV = {"PV.Equiv.TranslatedTime": ["dt2np_kinds", "dt2np_datetime", "dt2np_scalar", "dt2np_objarr", "dt2np_dtarr", "days_eq", "daysOf_branch", "jdays2000_kinds", "sibling_kinds"]}
 RULE = ("(1) kinds: the COMPLETE product {sun_zenith_angle, cos_zen, get_alt_az, observer_position, gmst, jdays} x 10 time kinds "
         "{datetime, datetime64[ns|us|ms|s|m], object array 1-d/2-d, datetime64 array 1-d/2-d} x 23 coordinate kinds {python int, "
         "float, numpy float32/float64/int64 scalars, 0-d/1-d/2-d float32/float64/int64 ndarrays, 0-d/1-d/2-d "
